@@ -24,7 +24,9 @@ CONSTANTS MaxRuns,      \* runs per behaviour
           Platforms,    \* subset of {"gitlab", "github"}
           Strips,       \* subset of BOOLEAN: platform strips trailing newlines of created bodies
           Shifts, Mods, \* variants of the report set: file F1 shifted by one line; which lines are modified
-          Probs         \* the problems that may be reported (subset of Problems)
+          Probs,        \* the problems that may be reported (subset of Problems)
+          Pads,         \* numbers of old review comments of other people that precede everything else on the pull request
+          Padfs         \* numbers of other files of the pull request listed before the rule files
 
 -----------------------------------------------------------------------------
 (* The universe of problems: 4 problems over 2 files. P1 and P2 come from   *)
@@ -244,7 +246,11 @@ CandGL == SetToSeqC(SeedCands("gitlab"))          \* constant-level: evaluated o
 CandGH == SetToSeqC(SeedCands("github"))
 CandSeq(plat) == IF plat = "gitlab" THEN CandGL ELSE CandGH
 
-Init == /\ cfg \in [plat : Platforms, max : Budgets, strip : Strips]
+\* cfg.pad: unrelated comments of other users, older than everything else (so a platform that pages its listing
+\* returns them first). They equal no pending comment and pint may not delete them, so they take no part in the
+\* reconciliation; the real reporters have to page through them (GitLab 20, GitHub 30 per page).
+\* cfg.padf: likewise other changed files listed before the rule files in the pull request's file list.
+Init == /\ cfg \in [plat : Platforms, max : Budgets, strip : Strips, pad : Pads, padf : Padfs]
         /\ store = <<>> /\ pc = "seed" /\ runs = 0 /\ inp = NoInp
         /\ before = <<>> /\ existing = <<>> /\ pending = <<>>
         /\ i = 0 /\ j = 0 /\ created = 0 /\ newc = <<>> /\ deleted = {}
@@ -384,6 +390,6 @@ Never_ConvergesLate   == ~(AtEnd /\ Obs.max = 1 /\ Obs.streak = 3 /\ Cardinality
 
 \* GEN: one case per finished behaviour
 EmitCase == (pc = "done") =>
-  PrintT(<<"CASE", ToJson([plat |-> cfg.plat, max |-> cfg.max, strip |-> cfg.strip,
+  PrintT(<<"CASE", ToJson([plat |-> cfg.plat, max |-> cfg.max, strip |-> cfg.strip, pad |-> cfg.pad, padf |-> cfg.padf,
                            seeds |-> hist.seeds, runs |-> hist.runs])>>)
 =============================================================================
